@@ -4,7 +4,7 @@
     construction: [expand] is a function accepted by Coq's guard checker).  What needs a proof
     is that none of the `unreachable!()` / `unwrap()` sites of the Rust source is reachable:
     the model gives those sites the outcome [Panic], and no expansion produces it. *)
-From DX Require Import Syntax Tables GenBound GenAttrs IR GenType GenCmp GenImpl GenTop LemNoPanic.
+From DX Require Import Syntax Tables Render GenBound GenAttrs IR GenType GenCmp GenImpl GenTop RenderOut LemNoPanic LemBalanced.
 
 Theorem C16_no_panic : forall inv, Forall not_panic (x_entries (expand inv)).
 Proof. exact expand_no_panic. Qed.
@@ -28,7 +28,48 @@ Proof.
   destruct o; [left | right; left | right; right | contradiction]; eauto.
 Qed.
 
+(** ** the output is a token TREE: brackets match (LemBalanced.v)
+
+    Tokens are flat in the model (a group is an opening and a closing token), so well-bracketedness is a statement.  `$` in a
+    `key = ..` template is replaced by the expression of the field; that expression is ONE parenthesised group with no
+    bracket inside, so whatever stands around `$` in the key, the field stays a single operand and the result is
+    well-bracketed whenever the user's key is.  The same for every comparison expression and every list of them that the
+    five comparison builders emit, given well-bracketed `key` / `by` expressions. *)
+Theorem C16_field_operand_is_one_group :
+  forall sk base f, exists inner,
+    place_of sk base f = tparen inner /\
+    forall t, In t inner -> match t with TO _ | TC _ => False | _ => True end.
+Proof. exact place_of_is_one_group. Qed.
+
+Theorem C16_key_substitution_well_bracketed :
+  forall sk base f k, balanced k = true -> balanced (apply_template k (place_of sk base f)) = true.
+Proof. exact key_operand_balanced. Qed.
+
+Theorem C16_comparison_bodies_well_bracketed :
+  forall op sk cs,
+    Forall (fun c => match cf_expr c with
+                     | CEDefault _ => True
+                     | CEKey k => balanced k = true
+                     | CEBy _ b => balanced b = true
+                     end) cs ->
+    balanced (r_cmp_fields op sk cs) = true.
+Proof.
+  intros op sk cs H. apply Bal_balanced, r_cmp_fields_Bal. eapply Forall_impl; [|exact H].
+  intros c Hc. cbn beta in Hc. destruct (cf_expr c); cbn [cexpr_Bal]; [exact I | apply Bal_balanced, Hc | apply Bal_balanced, Hc].
+Qed.
+
+(** the hypotheses are met by an ordinary key, and violated by an ill-bracketed one (which no attribute can contain) *)
+Example C16_key_instance :
+  let k := dollar_to_placeholder (q "$ % ( 2 + 2 )") in
+  let f := {| fl_member := MIndex 0; fl_index := 0; fl_ty := ident_ty "u8" |} in
+  (balanced k, flat (apply_template k (place_of SKStruct "self" f)), balanced (q "$ % ( 2 + 2"))
+  = (true, "( self . 0 ) % ( 2 + 2 )"%string, false).
+Proof. vm_compute. reflexivity. Qed.
+
 Print Assumptions C16_no_panic.
 Print Assumptions C16_is_reverse_only_for_orders.
 Print Assumptions C16_deref_kind.
 Print Assumptions C16_shape.
+Print Assumptions C16_field_operand_is_one_group.
+Print Assumptions C16_key_substitution_well_bracketed.
+Print Assumptions C16_comparison_bodies_well_bracketed.
